@@ -188,9 +188,10 @@ class WriteMultipleCoilsRequest(ModbusRequest):
         '''
         self.address, count, self.byte_count = struct.unpack('>HHB', data[0:5])
         values = unpack_bitstring(data[5:])
-        # keep the announced quantity of outputs even when fewer data bytes
-        # were sent, so that execute() sees the inconsistent byte count
-        self.values = (values + [False] * (count - len(values)))[:count]
+        self.values = values[:count]
+        # the announced quantity of outputs: execute() rejects the request
+        # when fewer outputs than that were actually sent
+        self.count = count
 
     def execute(self, context):
         ''' Run a write coils request against a datastore
@@ -200,6 +201,8 @@ class WriteMultipleCoilsRequest(ModbusRequest):
         '''
         count = len(self.values)
         if not (1 <= count <= 0x07b0):
+            return self.doException(merror.IllegalValue)
+        if getattr(self, 'count', count) != count:
             return self.doException(merror.IllegalValue)
         if (self.byte_count != (count + 7) // 8):
             return self.doException(merror.IllegalValue)
